@@ -56,7 +56,8 @@ func loadWorld(dir, tier string) (*World, error) {
 	}
 	var patterns []string
 	if tier == "thorough" {
-		cfg.Tests = true
+		// whole module: examples add Receiver/Processer implementations and API callers. Test variants of the
+		// packages are not loaded: they would duplicate every library function in the SSA program.
 		patterns = []string{"./..."}
 	} else {
 		for _, p := range libPkgs {
